@@ -267,3 +267,10 @@ pub fn c12_sunlit(ray_origins: &[f32], hits: usize) -> f32 {
     let num_intersects = hits;
     1.0 - num_intersects as f32 / ray_origins.len() as f32
 }
+
+// ---- C17: a day-of-year closed form with a wrong constant
+pub fn c17_day_of_year(day: u32, month: u32) -> u32 {
+    let day = day as f32;
+    let month = month as f32;
+    ((276.0 * month / 9.0).floor() - ((month + 9.0) / 12.0).floor() * 2.0 + day - 30.0) as u32
+}
